@@ -11,11 +11,13 @@ import (
 	"crypto/md5"  //nolint:gosec
 	"crypto/sha1" //nolint:gosec
 	"crypto/sha256"
+	"crypto/tls"
 	"encoding/hex"
 	"encoding/json"
 	"fmt"
 	"hash/crc32"
 	"os"
+	"reflect"
 	"strconv"
 	"strings"
 	"sync"
@@ -193,6 +195,28 @@ func vxSpawn(f func()) {
 		f()
 	}()
 }
+
+// vxNativeRun is true in native replays, false in the symbolic run.
+func vxNativeRun() bool { return true }
+
+// vxTLSServerName: the ServerName of the TLS client configuration wrapped around the client's connection ("" if none).
+func vxTLSServerName(c *Client) string {
+	if c == nil {
+		return ""
+	}
+	tc, ok := c.c.(*tls.Conn)
+	if !ok {
+		return ""
+	}
+	cfg := reflect.ValueOf(tc).Elem().FieldByName("config")
+	if !cfg.IsValid() || cfg.IsNil() {
+		return ""
+	}
+	return cfg.Elem().FieldByName("ServerName").String()
+}
+
+// vxDTLSServerName is only observable in the symbolic run.
+func vxDTLSServerName() string { return "" }
 
 func vxConcretize(x, _, _ int) int { return x }
 func vxGuardsOff()                 {}
